@@ -98,7 +98,20 @@ def v3_who_may_bind(ctx):
         raise AnchorLost('Session::add_variable is never called')
     for b, bid, t in callers:
         ctx.fn(b)
-        if not b.path.startswith('<syntax::assignment::AssignmentParser as'):
+        owner = b
+        for _ in range(4):           # a closure (of the parser, or of a helper spliced into it) belongs to the function that creates it
+            if owner.kind == 'closure' and owner.rec.get('parent') in ctx.facts.bodies:
+                owner = ctx.facts.bodies[owner.rec['parent']]
+            elif owner.kind == 'closure':
+                hp = owner.rec.get('parent')
+                cs = [c for h, c in getattr(ctx.facts, 'splice_report', []) if h == hp]
+                if cs and len(cs[0]) == 1 and cs[0][0] in ctx.facts.bodies:
+                    owner = ctx.facts.bodies[cs[0][0]]
+                else:
+                    break
+            else:
+                break
+        if not owner.path.startswith('<syntax::assignment::AssignmentParser as'):
             ctx.finding('V3', 'binder/%s' % fn_key(b.path), '%s creates a binding; only the assignment parser may' % fn_key(b.path), site=t['loc'])
             continue
         conds = b.cond_text(bid)
@@ -271,6 +284,10 @@ def v7_selection(ctx):
                 if it is None:
                     raise Unknown('find_location is asked for %r' % (m.deref_value(args[1]),))
                 return m.make_adt('core::option::Option::Some', [Rep(info[it][1])], [])
+            if re.search(r'BTreeMap::<.*>::is_empty$', path):
+                return int(not cands)            # the session's bindings: the candidates of this walk
+            if re.search(r'BTreeMap::<.*>::len$', path):
+                return len(cands)
             if re.search(r'Vec::<.*>::len$|slice::<impl \[T\]>::len$', path):
                 it = item_of(m, args[0])
                 if it is not None:
